@@ -30,6 +30,7 @@ UNIT_PROPS = {
     "refs_text": ["C20"],
     "cob_thread": ["C07"],
     "fetch_stage": ["C01"],
+    "wire_streams": ["C13"],
     "fetch_validate": ["C01"],
     "service_inventory": ["C11"],
 }
@@ -154,11 +155,11 @@ PROPS = {
         "not_decided": "Second sentence of C11 (private repositories never appear in an inventory announcement): decided only for the inventory message built at start-up -- Service::initialize is verified (unit service_inventory) to hand gossip::inventory a set containing only repositories whose document is public; refresh_and_announce_inventory / add_inventory rebuild the message from the routing table (SQL), whose content is outside any contract (Service::add_inventory does not itself test visibility: its callers do) -- not decided. Callers of announce_refs are assumed to pass the document of `rid`; Sessions::connected is assumed to yield (id, session) pairs with session.id == id; Iterator::filter/map/next are assumed by contract; a closure added on these paths without a contract makes the proof fail (reported as a violation of the closure's caller obligation).",
     },
     "C13": {
-        "vx": ["wire_frame", "pktline", "session", "service_fetch", "service_gossip"],
+        "vx": ["wire_frame", "pktline", "session", "service_fetch", "service_gossip", "wire_streams"],
         "kx": [],
         "technique": "Verus panic-freedom obligations (index/slice bounds, overflow, unreachable!, assert!/debug_assert! as preconditions of stand-ins) on extracted decoders, pkt-line reader, session bookkeeping and message handlers; store assertions as sink preconditions",
-        "explanation": "For the extracted functions every slice/index access, arithmetic operation, unreachable!/assert!/debug_assert!/panic! is proved unreachable or true for all inputs: VarInt/Frame/Control/payload decoding and Deserializer; read_pktline/read_request_pktline; Session::{queue_fetch,fetching,to_attempted,to_initial} assertions at their call sites in the extracted callers; gossip store assertions (timestamp != 0, since <= until) as preconditions established by handle_announcement/handle_message; allocation sizes bounded by bytes received.",
-        "not_decided": "Only the listed functions: Message::decode and the other message decoders, GitRequest::parse (str code), Service handlers other than handle_message/handle_announcement gate/fetched/queue_fetch, netservices/cyphernet transport are not covered. Stand-ins with arbitrary results are assumed not to panic.",
+        "explanation": "For the extracted functions every slice/index access, arithmetic operation, unreachable!/assert!/debug_assert!/panic! is proved unreachable or true for all inputs: VarInt/Frame/Control/payload decoding and Deserializer; read_pktline/read_request_pktline; Session::{queue_fetch,fetching,to_attempted,to_initial} assertions at their call sites in the extracted callers; gossip store assertions (timestamp != 0, since <= until) as preconditions established by handle_announcement/handle_message; allocation sizes bounded by bytes received. Stream table (unit wire_streams): Streams::open never hits its `expect`s (fewer than 2^58 streams opened) given the invariant 'no registered git stream of our own half of the id space is ahead of our sequence number', which Streams::new establishes and Streams::register -- the only operation that takes an id chosen by the peer -- preserves by refusing ids of our half (defect F14, repaired).",
+        "not_decided": "That the `Control::Open` handler (inside the 400-line Wire::received) hands the peer's id to Streams::register and to nothing else is by inspection; Streams::insert (HashMap entry API) is a stand-in. Only the listed functions: Message::decode and the other message decoders, GitRequest::parse (str code), Service handlers other than handle_message/handle_announcement gate/fetched/queue_fetch, netservices/cyphernet transport are not covered. Stand-ins with arbitrary results are assumed not to panic.",
     },
     "C16": {
         "vx": ["session", "service_fetch"],
